@@ -13,3 +13,4 @@ git -C /repo reset -q --hard HEAD
 git -C /repo status --short
 git -C /verif checkout -q -- evidence 2>/dev/null  # evidence written while /repo was patched is not kept
 python3 /verif/tools/gen_consts.py > /dev/null
+python3 /verif/tools/gen_funcs.py > /dev/null   # the generated files must describe the UNCHANGED tree again
